@@ -149,7 +149,7 @@ func c14Exec(run *ev.Run, c ev.Case) {
 			// one repository, every injection point of its walk, one fault kind per case
 			n := 2 + r.Intn(5)
 			first := []int{0, -1, 5}[b.From%3]
-			faults := []string{"cancel", "modify-add", "modify-erase", "modify-replace", "ts-only", "double", "info-modify"}
+			faults := []string{"cancel", "modify-add", "modify-erase", "modify-replace", "ts-only", "double", "info-modify", "ts-only-erase", "ts-only-erase"}
 			f := faults[b.From%len(faults)]
 			// the walk issues at most 2 Get SDR per record
 			for at := 1; at <= 2*n+1; at++ {
@@ -186,6 +186,13 @@ func c14One(run *ev.Run, p c14P) {
 		return o
 	}
 	repo := refbmc.NewRepo(toRecs(base), 0x5f000000+uint32(r.Intn(1<<20)))
+	// the two timestamps are independent counters: in half of the cases the
+	// last erase is the more recent one, in the other half the last addition
+	if r.Intn(2) == 0 {
+		repo.EraseTS = repo.AddTS + uint32(1+r.Intn(5000))
+	} else {
+		repo.EraseTS = repo.AddTS - uint32(r.Intn(5000))
+	}
 	injected := 0
 	modify := func(rp *refbmc.Repo, kind string, cancelResv bool) {
 		cur := append([]c14Rec(nil), versions[rp.Version]...)
@@ -225,6 +232,8 @@ func c14One(run *ev.Run, p c14P) {
 			modify(rp, "replace", true)
 		case "ts-only":
 			modify(rp, "replace", false)
+		case "ts-only-erase":
+			modify(rp, "erase", false)
 		case "double":
 			if second {
 				rp.CancelLocked()
